@@ -637,7 +637,15 @@ def histLine (s : HState) (toks : Array String) : HState × List Msg :=
                    | some w => [{ cls := "SPEC-MISMATCH", op := "tojsonfloat", kind := "value", detail := w }])
                 else []
               (s', { cls := "OK", op := op, kind := "", detail := "" } :: fl)
-            | some w => (s', [{ cls := "SPEC-MISMATCH", op := op, kind := "value", detail := s!"{w}: frame {showFrame f} written as {repr (bytesToString out)}" }])
+            | some w =>
+              -- a text that does not denote the frame may fail exactly because a float token does not parse back to its
+              -- cell (C16: e.g. -0 written as 0): say so under C16's own operation as well
+              let fl : List Msg := if wp.kind == "json" && !hasInf f then
+                  (match jsonFloatsShortest f out with
+                   | none => []
+                   | some w2 => [{ cls := "SPEC-MISMATCH", op := "tojsonfloat", kind := "value", detail := w2 }])
+                else []
+              (s', { cls := "SPEC-MISMATCH", op := op, kind := "value", detail := s!"{w}: frame {showFrame f} written as {repr (bytesToString out)}" } :: fl)
       | none => failL "WO" "bad WO line"
   | some "WN" =>
     -- the injected driver failure was never reached by this call: no error is demanded
